@@ -187,6 +187,7 @@ func (E *Engine) prepare(hyps []*Term, goal *Term) ([]*Term, *Term) {
 }
 
 func (E *Engine) prepare2(hyps []*Term, goal *Term, hints map[string][]*Term) (groundOut, quantOut []*Term, goalOut *Term) {
+	E.lastCuts = nil
 	hyps = flattenAnd(hyps)
 	var origGoal *Term
 	if goal != nil {
@@ -412,6 +413,7 @@ func (E *Engine) prepare2(hyps []*Term, goal *Term, hints map[string][]*Term) (g
 		if len(produced) == 0 {
 			break
 		}
+		E.lastCuts = append(E.lastCuts, len(out))
 		// next round: index terms that are new in the produced instances
 		next := map[string]*Term{}
 		for _, inst := range produced {
@@ -666,6 +668,15 @@ func (E *Engine) Discharge(par int) {
 		facts := E.strConstFacts(x, strUsed(all, goal))
 		ground = append(ground, facts...)
 		if len(quant) > 0 && goal != nil {
+			// smaller ground scripts first: the instances of the first round(s) only
+			cuts := append([]int(nil), E.lastCuts...)
+			for ci, c := range cuts {
+				if ci == len(cuts)-1 || c >= len(ground)-len(facts) {
+					break
+				}
+				part := append(append([]*Term(nil), ground[:c]...), facts...)
+				j.q.ScriptsPart = append(j.q.ScriptsPart, Script(part, goal, false, nil))
+			}
 			j.q.ScriptG = Script(ground, goal, false, nil)
 			if E.debugQ {
 				E.debugN++
@@ -691,6 +702,18 @@ func (E *Engine) Discharge(par int) {
 			if len(g) > maxScript {
 				g = ""
 			}
+			for _, ps := range j.q.ScriptsPart {
+				if len(ps) > maxScript {
+					continue
+				}
+				t0 := time.Now()
+				if r, _ := runSolver("z3-new", ps, 3); r == "unsat" {
+					j.q.Result, j.q.Solver, j.q.Seconds = "unsat", "z3-new", time.Since(t0).Seconds()
+					j.q.Script, j.q.ScriptG, j.q.ScriptsPart = "", "", nil
+					return
+				}
+			}
+			j.q.ScriptsPart = nil
 			j.q.Result, j.q.Solver, j.q.Output, j.q.Seconds = race(j.q.Script, g, E.timeoutS)
 			j.q.ScriptG = ""
 			if j.q.Result == "sat" && j.o.Kind != "cover" && len(j.q.Names) > 0 {
